@@ -9,7 +9,7 @@ import StVerif.Spec.Search
 namespace StVerif.Spec.Slice
 open StVerif
 open StVerif.Search (CaseMode)
-open StVerif.Spec.Search (occursAt)
+open StVerif.Spec.Search (occursAt leastFrom greatestBelow)
 
 /-- the count value that means "to the end" (`ST_AUTO_SIZE`) -/
 def autoSize : Nat := 2^64 - 1
@@ -40,13 +40,14 @@ def trim (s cset : List Nat) : List Nat := trimRight (trimLeft s cset) cset
     of `sep.length` bytes at `i` lies inside `s` and equals `sep`, ASCII letters folded on both sides
     in the insensitive mode).  An empty separator occurs nowhere. -/
 
-/-- offset of the first occurrence of a non-empty separator -/
+/-- offset of the first occurrence of a non-empty separator: the least `i` with `occursAt … i`
+    (candidates `0 … |s|`; `leastFrom` is C07's generic bounded least-index search) -/
 def firstOcc (cs : CaseMode) (s sep : List Nat) : Option Nat :=
-  if sep = [] then none else (List.range (s.length + 1)).find? (fun i => occursAt cs s sep i)
+  if sep = [] then none else leastFrom (fun i => decide (occursAt cs s sep i)) (s.length + 1) 0
 
-/-- offset of the last occurrence of a non-empty separator -/
+/-- offset of the last occurrence of a non-empty separator: the greatest such `i` -/
 def lastOcc (cs : CaseMode) (s sep : List Nat) : Option Nat :=
-  if sep = [] then none else (List.range (s.length + 1)).reverse.find? (fun i => occursAt cs s sep i)
+  if sep = [] then none else greatestBelow (fun i => decide (occursAt cs s sep i)) (s.length + 1)
 
 /-- the separator occurs somewhere -/
 def occurs (cs : CaseMode) (s sep : List Nat) : Bool := (firstOcc cs s sep).isSome
